@@ -7,6 +7,7 @@ import (
 	"math/big"
 	"math/rand"
 	"sort"
+	"strings"
 	"sync/atomic"
 
 	"github.com/xuperchain/xupercore/kernel/ledger"
@@ -220,9 +221,12 @@ func genUniverse(rng *rand.Rand) *universe {
 	sort.Strings(u.Buckets)
 	for _, b := range u.Buckets {
 		nk := 3 + rng.Intn(4)
-		kp := rng.Perm(len(keyPool))
+		kp := rng.Perm(len(keyPool) - 1)
 		for i := 0; i < nk; i++ {
 			u.Keys[b] = append(u.Keys[b], keyPool[kp[i]])
+		}
+		if rng.Intn(20) == 0 {
+			u.Keys[b] = append(u.Keys[b], "") // the empty key (last of keyPool), rarely
 		}
 		sort.Strings(u.Keys[b])
 	}
@@ -258,6 +262,8 @@ type realBacking struct {
 	reader ledger.XMReader
 	txs    int
 	blocks int
+	// how the keys got their present state
+	recreated, overwritten, deletedLive, deletedNever int
 }
 
 // buildReal creates a node, commits rounds of put / delete programs (some confirmed in
@@ -273,7 +279,7 @@ func buildReal(rng *rand.Rand, id string) (*realBacking, error) {
 	u.Buckets = append([]string{}, bucketPool...)
 	for _, b := range u.Buckets {
 		nk := 5 + rng.Intn(4)
-		kp := rng.Perm(len(keyPool))
+		kp := rng.Perm(len(keyPool) - 1) // (not the empty key)
 		for i := 0; i < nk; i++ {
 			u.Keys[b] = append(u.Keys[b], keyPool[kp[i]])
 		}
@@ -306,8 +312,18 @@ func buildReal(rng *rand.Rand, id string) (*realBacking, error) {
 				continue
 			}
 			e := bkEntry{Kind: bkLive, Val: append([]byte{}, o.Value...), Txid: append([]byte{}, tx.Txid...), Off: int32(i)}
+			prev := rb.desc.get(o.Bucket, string(o.Key)).Kind
 			if string(o.Value) == delMarker {
 				e.Kind, e.Val = bkDeleted, nil
+				if prev == bkLive {
+					rb.deletedLive++
+				} else if prev == bkNever {
+					rb.deletedNever++
+				}
+			} else if prev == bkDeleted {
+				rb.recreated++
+			} else if prev == bkLive {
+				rb.overwritten++
 			}
 			rb.desc.set(o.Bucket, string(o.Key), e)
 		}
@@ -374,4 +390,121 @@ func buildReal(rng *rand.Rand, id string) (*realBacking, error) {
 		}
 	}
 	return rb, nil
+}
+
+// ---------------------------------------------------------------------------------------
+// end-to-end cross-check of the driving method: the same program, run as a $verif kernel
+// contract through contract.Manager / kernel context / PreExec of the node, must give the
+// answers and the read / write set the directly driven sandbox gives. A disagreement means the
+// harness does not observe what contracts observe (reported as inconclusive, not a violation).
+// ---------------------------------------------------------------------------------------
+
+func encF(b []byte) string {
+	if len(b) == 0 {
+		return "_"
+	}
+	return fmt.Sprintf("%x", b)
+}
+
+func normBody(s string) string {
+	s = strings.ReplaceAll(s, "=-,", "=_,")
+	return strings.ReplaceAll(s, ":-;", ":_;")
+}
+
+// e2e runs prog (get / put / del / scan only, valid ranges, non-empty values) both ways.
+func e2e(rb *realBacking, prog []Op) (ok bool, why string) {
+	pb := &sn.ProgBuilder{}
+	for _, op := range prog {
+		switch op.Kind {
+		case opGet:
+			pb.Get(op.B, []byte(op.Key))
+		case opPut:
+			pb.Put(op.B, []byte(op.Key), op.val())
+		case opDel:
+			pb.Del(op.B, []byte(op.Key))
+		case opScan:
+			pb.Scan(op.B, op.lo(), op.hi(), op.N)
+		}
+	}
+	who := sn.K(1)
+	res, err := rb.node.PreExec([]*protos.InvokeRequest{sn.VerifReq(sn.VerifContract, pb.String())}, who.Address, []string{who.Address})
+	if err != nil {
+		return false, "PreExec: " + err.Error()
+	}
+	ex := newExecutor(rb.reader, newFakeUtxo())
+	var body strings.Builder
+	for _, op := range prog {
+		obs := ex.do(op)
+		if obs.Panic != "" {
+			return false, "direct run panicked: " + obs.Panic
+		}
+		switch op.Kind {
+		case opGet:
+			if obs.Err != "" {
+				fmt.Fprintf(&body, "get:%s:%s:ERR(%s);", op.B, encF([]byte(op.Key)), obs.Err)
+			} else {
+				fmt.Fprintf(&body, "get:%s:%s:%s;", op.B, encF([]byte(op.Key)), encF(obs.Val))
+			}
+		case opScan:
+			if obs.Err != "" {
+				fmt.Fprintf(&body, "scan:ERR(%s);", obs.Err)
+				break
+			}
+			body.WriteString("scan:")
+			for _, it := range obs.Items {
+				fmt.Fprintf(&body, "%s=%s,", encF([]byte(it.K)), encF(it.V))
+			}
+			body.WriteString(";")
+		}
+	}
+	ex.do(Op{Kind: opFlush})
+	if got, want := normBody(string(res.Responses[len(res.Responses)-1].Body)), normBody(body.String()); got != want {
+		return false, fmt.Sprintf("contract path answered %s, direct path %s for %s", got, want, progText(prog))
+	}
+	rw := ex.sb.RWSet()
+	if len(rw.RSet) != len(res.Inputs) || len(rw.WSet) != len(res.Outputs) {
+		return false, fmt.Sprintf("RW set sizes differ: contract path %d/%d, direct %d/%d for %s", len(res.Inputs), len(res.Outputs), len(rw.RSet), len(rw.WSet), progText(prog))
+	}
+	for i, in := range res.Inputs {
+		vd := rw.RSet[i]
+		if in.Bucket != vd.PureData.Bucket || !bytes.Equal(in.Key, vd.PureData.Key) || !bytes.Equal(in.RefTxid, vd.RefTxid) || in.RefOffset != vd.RefOffset {
+			return false, fmt.Sprintf("read set entry %d differs for %s", i, progText(prog))
+		}
+	}
+	for i, out := range res.Outputs {
+		pd := rw.WSet[i]
+		if out.Bucket != pd.Bucket || !bytes.Equal(out.Key, pd.Key) || !bytes.Equal(out.Value, pd.Value) {
+			return false, fmt.Sprintf("write set entry %d differs for %s", i, progText(prog))
+		}
+	}
+	return true, ""
+}
+
+func genE2EProgram(rng *rand.Rand, u *universe) []Op {
+	n := 2 + rng.Intn(8)
+	var p []Op
+	for i := 0; i < n; i++ {
+		b := pick(rng, u.Buckets)
+		keys := u.Keys[b]
+		switch x := rng.Intn(10); {
+		case x < 3:
+			p = append(p, Op{Kind: opGet, B: b, Key: pick(rng, keys)})
+		case x < 5:
+			p = append(p, Op{Kind: opPut, B: b, Key: pick(rng, keys), Val: fmt.Sprintf("w%d", i)})
+		case x < 7:
+			p = append(p, Op{Kind: opDel, B: b, Key: pick(rng, keys)})
+		default:
+			op := Op{Kind: opScan, B: b, N: -1}
+			op.Lo, op.LoNil = genBound(rng, keys, false, true)
+			op.Hi, op.HiNil = genBound(rng, keys, true, false)
+			if op.Lo > op.Hi {
+				op.Lo, op.Hi = op.Hi, op.Lo
+			}
+			if rng.Intn(3) == 0 {
+				op.N = rng.Intn(3)
+			}
+			p = append(p, op)
+		}
+	}
+	return p
 }
